@@ -27,6 +27,8 @@ func runC09(p *Program, r *Report) {
 	})
 	r.Rule("R09.7", "E3", 3, "a search literal is decoded as the client wrote it: a function that hands a literal to UpdateExpressionValue (decode, transform, re-encode) does not change that literal's type or bytes before the call - the value hashed must be the value an INSERT of the same literal stores")
 	ruleR097(p, r)
+	r.Rule("R09.8", "E3", 4, "a row is handed out as matching only after its index was compared: in every function that compares a search hash with decrypted content, each nil-error return is reachable only over the 'equal' edge of IsEqual or over the 'no hash present' edge (same rule as R03.6)")
+	ruleVerifiedSuccess(p, r, "R09.8")
 	r.Rule("R09.4", "E3", 2, "index re-verification is wired: in both proxy factories the HMAC processor is subscribed both before and after the container detector (strip-and-remember, then verify after decryption)")
 	ruleR094(p, r)
 }
@@ -398,4 +400,8 @@ func ruleR097(p *Program, r *Report) {
 
 func init() {
 	mut("C09", "mysql literal retyped before decoding (original defect)", "hmac/decryptor/mysql/hashQuery.go", "			hexNumLiteral = rVal\n		}", "			hexNumLiteral = rVal\n			rVal.Type = sqlparser.HexNum\n		}", "R09.7", "literal untouched")
+}
+
+func init() {
+	mut("C09", "hmac processor skips the comparison for a hash it has seen pass", "hmac/dataProcessor.go", "	if p.hashData != nil && !p.matchedHash.IsEqual(data, accessContext.GetClientID(), p.hmacStore) {", "	if p.hashData != nil && len(p.hashData) == len(p.rawData) {\n		return data, nil\n	}\n	if p.hashData != nil && !p.matchedHash.IsEqual(data, accessContext.GetClientID(), p.hmacStore) {", "R09.8", "Process")
 }
